@@ -331,6 +331,24 @@ func c04Run(t *testing.T, sc Scenario, res *Result) {
 		}
 		res.digest(fmt.Sprintf("check/%x", sc.Seed), da)
 		res.nontrivial(fmt.Sprintf("check/%x", sc.Seed))
+		if mix(sc.Seed, 0x4a4e)%4 == 0 {
+			// ONE generator with a predicate that holds rarely (1 value in 24), used by the same Check three times in a row:
+			// what it draws depends on the seed alone, not on how often the generator was turned down before
+			rare := rapid.IntRange(0, 999).Filter(func(v int) bool { return v%24 == 0 })
+			var runs [3][]int
+			for k := range runs {
+				setFlags(map[string]string{"rapid.seed": fmt.Sprint(sc.Seed%999983 + 1), "rapid.checks": "40", "rapid.nofailfile": "true"})
+				tb := newTB("C04rare")
+				runCheck(tb, func(t *rapid.T) {
+					v := rare.Draw(t, "rare")
+					runs[k] = append(runs[k], v, rapid.IntRange(0, 9).Draw(t, "next"))
+				})
+			}
+			res.inc("rare_filter_triples")
+			if fmt.Sprint(runs[0]) != fmt.Sprint(runs[1]) || fmt.Sprint(runs[0]) != fmt.Sprint(runs[2]) {
+				res.violate(sc, "c04/rare-filter", fmt.Sprintf("three Checks with the same seed drew different values from one shared generator with a rarely satisfied Filter (%d, %d and %d values)", len(runs[0]), len(runs[1]), len(runs[2])), nil)
+			}
+		}
 	}
 }
 
